@@ -1281,6 +1281,16 @@ CONTROLS['C15'] = [
     M('c15-404-to-500', 'placement/handler.py',
       "        except exception.NotFound as exc:\n            raise webob.exc.HTTPNotFound(\n                exc, json_formatter=util.json_error_formatter)\n",
       "", 'R15.1'),
+    M('c15-reintroduce-F12', 'placement/schemas/inventory.py',
+      "                common.RC_PATTERN: PUT_INVENTORY_RECORD_SCHEMA,\n            },\n            \"additionalProperties\": False\n",
+      "                common.RC_PATTERN: PUT_INVENTORY_RECORD_SCHEMA,\n            }\n", 'R15.8'),
+    M('c15-open-resources-object', 'placement/schemas/allocation.py',
+      '                                    "minimum": 1,\n                                }\n                            },\n                            "additionalProperties": False\n',
+      '                                    "minimum": 1,\n                                }\n                            }\n', 'R15.8'),
+    M('c15-reintroduce-F13', 'placement/util.py',
+      "    except (ValueError, RecursionError) as exc:", "    except ValueError as exc:", 'R15.2'),
+    B('c15-benign-catch-exception', 'placement/util.py',
+      "    except (ValueError, RecursionError) as exc:", "    except (ValueError, RuntimeError) as exc:"),
     B('c15-benign-rename', 'placement/util.py',
       "        try:\n            amount = int(amount)\n        except ValueError:",
       "        try:\n            amount = int(amount.strip())\n        except (ValueError, TypeError):"),
